@@ -97,6 +97,15 @@ func (t *ftr) assignedOutside(nodes []ast.Node, lo, hi token.Pos) []types.Object
 			case *ast.IncDecStmt:
 				add(s.X)
 			case *ast.CallExpr:
+				if id, ok := s.Fun.(*ast.Ident); ok {
+					if callee, ok := t.T.byObj[t.p.info.Uses[id]]; ok {
+						for _, oi := range callee.outParams {
+							if oi < len(s.Args) {
+								add(s.Args[oi])
+							}
+						}
+					}
+				}
 				if id, ok := s.Fun.(*ast.Ident); ok && id.Name == "copy" && len(s.Args) == 2 {
 					if sl, ok := s.Args[0].(*ast.SliceExpr); ok {
 						add(sl.X)
@@ -240,9 +249,9 @@ func (t *ftr) returnStmt(x *ast.ReturnStmt, c *cctx) string {
 	if t.fi.isTables {
 		t.fail(x, "return inside a table initialiser")
 	}
-	want := []gtype{t.fi.result}
-	if t.fi.result.k == kTuple {
-		want = t.fi.result.elems
+	want := []gtype{t.fi.origRes}
+	if t.fi.origRes.k == kTuple {
+		want = t.fi.origRes.elems
 	}
 	var bs []bind
 	saved := t.pre
@@ -254,6 +263,9 @@ func (t *ftr) returnStmt(x *ast.ReturnStmt, c *cctx) string {
 		if g.k != kTuple || len(g.elems) != len(want) {
 			t.fail(x, "return of a %s where %s is expected", g.coq(), t.fi.result.coq())
 		}
+		if len(t.fi.outParams) > 0 {
+			t.fail(x, "return of a multi-valued call from a function with out-parameters")
+		}
 		vals = []string{s}
 	} else {
 		if len(x.Results) != len(want) {
@@ -264,6 +276,9 @@ func (t *ftr) returnStmt(x *ast.ReturnStmt, c *cctx) string {
 		}
 	}
 	t.pre = saved
+	for _, i := range t.fi.outParams {
+		vals = append(vals, fmt.Sprintf("p%d", i))
+	}
 	return renderBinds(bs) + c.ret(tuple(vals))
 }
 
@@ -392,6 +407,22 @@ func (t *ftr) copyCall(call *ast.CallExpr, nName string) (string, bool) {
 }
 
 func (t *ftr) assignStmt(x *ast.AssignStmt) string {
+	if len(x.Lhs) == 1 && len(x.Rhs) == 1 && x.Tok == token.ADD_ASSIGN {
+		// pos += copy(buf[pos:], s)
+		if call, ok := x.Rhs[0].(*ast.CallExpr); ok {
+			if id, ok := call.Fun.(*ast.Ident); ok && id.Name == "copy" {
+				if lid, ok := x.Lhs[0].(*ast.Ident); ok {
+					name, o := t.varOf(lid)
+					if t.gtypeOf(lid, o.Type()).k == kInt {
+						n := t.temp()
+						if txt, ok := t.copyCall(call, n); ok {
+							return txt + fmt.Sprintf("let %s := (%s + %s)%%Z in\n", name, name, n)
+						}
+					}
+				}
+			}
+		}
+	}
 	if len(x.Lhs) == 1 && len(x.Rhs) == 1 && (x.Tok == token.DEFINE || x.Tok == token.ASSIGN) {
 		if call, ok := x.Rhs[0].(*ast.CallExpr); ok {
 			if id, ok := call.Fun.(*ast.Ident); ok && id.Name == "copy" {
